@@ -872,6 +872,73 @@ func ruleIndent(c *Ctx) {
 			}
 		}
 	}
+	// third clause: the column that is measured against the configured minimum column is the column of the longest
+	// account behind the CONFIGURED indent - whatever is compared or maximised with Options.MinAlignmentColumn depends
+	// on Options.IndentSize too (C19-m28: a helper that takes the column from the default-indent variant).
+	nCol := 0
+	isMinLoad := func(v ssa.Value) bool {
+		v = stripConv(v)
+		if u, ok := v.(*ssa.UnOp); ok && u.Op == token.MUL {
+			return fieldAddrNamed(u.X, "MinAlignmentColumn")
+		}
+		if fl, ok := v.(*ssa.Field); ok {
+			if st, ok := fl.X.Type().Underlying().(*types.Struct); ok && st.Field(fl.Field).Name() == "MinAlignmentColumn" {
+				return true
+			}
+		}
+		return false
+	}
+	for _, f := range c.P.ModuleFuncs() {
+		top := f
+		for top.Parent() != nil {
+			top = top.Parent()
+		}
+		if top.Pkg != fpk {
+			continue
+		}
+		for _, b := range f.Blocks {
+			for _, ins := range b.Instrs {
+				var ops []ssa.Value
+				switch x := ins.(type) {
+				case *ssa.BinOp:
+					switch x.Op {
+					case token.LSS, token.GTR, token.LEQ, token.GEQ:
+						ops = []ssa.Value{x.X, x.Y}
+					}
+				case *ssa.Call:
+					if bi, ok := x.Call.Value.(*ssa.Builtin); ok && (bi.Name() == "max" || bi.Name() == "min") {
+						ops = x.Call.Args
+					}
+				}
+				if len(ops) < 2 {
+					continue
+				}
+				hasMin := false
+				for _, o := range ops {
+					if isMinLoad(o) {
+						hasMin = true
+					}
+				}
+				if !hasMin {
+					continue
+				}
+				for _, o := range ops {
+					if isMinLoad(o) {
+						continue
+					}
+					if _, ok := stripConv(o).(*ssa.Const); ok {
+						continue
+					}
+					nCol++
+					sl := sliceUp(ci, o, f)
+					c.check(sliceHasFieldRead(sl, "IndentSize"), "C05-INDENT", funcName(f), "the column measured against the minimum column depends on the configured indent", ins.Pos(),
+						"the column compared with Options.MinAlignmentColumn depends on Options.IndentSize",
+						"the column that is compared or maximised with Options.MinAlignmentColumn does not depend on Options.IndentSize: the alignment column is computed for another indent than the one the posting lines are written with, so a configured indent larger than the default pushes long accounts past the column (amounts no longer aligned) and a smaller one leaves the column too far right - the formatting.indentSize setting only half takes effect")
+				}
+			}
+		}
+	}
+	c.note("C05-INDENT: %d columns measured against the minimum column", nCol)
 	c.census("C05-INDENT", "strings.Repeat calls in the formatter", nRep, 2)
 	c.check(nPad >= 1, "C05-INDENT", "formatter", "alignment padding accounts for the configured indent and the minimum column", token.NoPos,
 		fmt.Sprintf("%d padding computation(s) depend on both Options.IndentSize and Options.MinAlignmentColumn", nPad),
